@@ -103,6 +103,9 @@ func caseC06(c *Ctx) {
 	if c.Chance(1, 8) {
 		op.Decoys = true
 	}
+	if c.Chance(1, 10) {
+		op.NilOption = true
+	}
 	fo := forestOpts{maxRoots: 4, maxExtra: 6, alpha: []int{alphaPlain, alphaFS}[c.Draw(2)], distinctRoots: true, maxDepth: 4, maxFan: 3, shapes: true}
 	if op.FromRoot {
 		fo.maxRoots = 1
@@ -470,11 +473,21 @@ func caseC08(c *Ctx) {
 	if c.Chance(1, 8) {
 		op.Decoys = true
 	}
+	if c.Chance(1, 10) {
+		op.NilOption = true
+	}
 	fo := forestOpts{maxRoots: 3, maxExtra: 6, alpha: []int{alphaPlain, alphaFS}[c.Draw(2)], distinctRoots: true, maxDepth: 4, maxFan: 3, shapes: true}
 	if op.FromRoot {
 		fo.maxRoots = 1
 	}
+	manyRoots := !op.FromRoot && c.Chance(1, 8)
+	if manyRoots {
+		fo.maxRoots, fo.maxExtra = 16, 2
+	}
 	forest := genForest(c, fo)
+	for manyRoots && len(forest) < 12 {
+		forest = append(forest, genTree(c, fmt.Sprintf("r%d", len(forest)), fo))
+	}
 	if c.Chance(1, 15) {
 		// a root named "." stands for the target directory itself
 		forest[0].Name = "."
@@ -660,7 +673,9 @@ func caseC08(c *Ctx) {
 		}
 	}
 	var out *Outcome
-	if massive {
+	if massive || manyRoots || c.Chance(1, 10) {
+		// (the simple-mode call runs under the scheduler too now and then: whatever goroutines
+		// it may start are then scheduled deterministically)
 		env.MaxSteps = 60000
 		out = c.Sim("verify", op, env)
 	} else {
